@@ -29,11 +29,11 @@ Qed.
 
 (* the encoder path never reads a table out of bounds, for EVERY value of the operand fields the signature can carry
    (5-bit base/index types, 3-bit segment; ids, shift, offset arbitrary) — in both modes, validated or not *)
-Theorem mem_encode_never_stuck : forall x64 m,
+Theorem mem_encode_never_stuck : forall x64 absloc cur m,
   0 <= m_btype m <= x86c_mem_base_type_max -> 0 <= m_itype m <= x86c_mem_index_type_max -> 0 <= m_seg m <= x86c_mem_segment_max ->
-  x86_add_mem_encode x64 m <> MStuck.
+  x86_add_mem_encode x64 absloc cur m <> MStuck.
 Proof.
-  intros x64 m Hb Hi Hs. unfold x86_add_mem_encode.
+  intros x64 absloc cur m Hb Hi Hs. unfold x86_add_mem_encode.
   destruct (mem_info_lookup (m_btype m) (m_itype m) Hb Hi) as [rmi E1]. rewrite E1. cbn [bind_l].
   destruct (segment_lookup (m_seg m) Hs) as [sp E2]. rewrite E2. cbn [bind_l].
   set (rex1 := Z.lor _ (if x64 then 0 else 128)).
@@ -44,7 +44,7 @@ Proof.
     destruct (_ && _); [discriminate |]. destruct (is_int8 _); discriminate. }
   repeat match goal with
   | |- (if ?c then _ else _) <> MStuck => destruct c
-  | |- MOk _ <> MStuck => discriminate
+  | |- MOk _ _ <> MStuck => discriminate
   | |- MErr _ <> MStuck => discriminate
   | |- MUnsupported <> MStuck => discriminate
   end.
@@ -55,20 +55,20 @@ Proof.
         | destruct (mod16_b_lookup (m_bid m)) as [v E]; rewrite E; cbn [bind_l]; apply A ] ].
 Qed.
 
-Theorem mem_path_never_stuck : forall x64 add_id m,
+Theorem mem_path_never_stuck : forall x64 absloc cur add_id m,
   0 <= m_btype m <= x86c_mem_base_type_max -> 0 <= m_itype m <= x86c_mem_index_type_max -> 0 <= m_seg m <= x86c_mem_segment_max ->
-  x86_add_mem x64 add_id m <> MStuck.
+  x86_add_mem x64 absloc cur add_id m <> MStuck.
 Proof.
-  intros x64 add_id m Hb Hi Hs. unfold x86_add_mem.
+  intros x64 absloc cur add_id m Hb Hi Hs. unfold x86_add_mem.
   destruct (validate_add_mem x64 add_id m =? 0); [apply mem_encode_never_stuck; assumption | discriminate].
 Qed.
 
 (* a refusal carries a real error code, so the verdict is a well-formed input of the emit transaction and the general
    theorems (no effect, state cleared, reported once, fresh-equivalent) apply to these instructions *)
-Theorem mem_cmd_wf : forall a add_id m c, mem_cmd a add_id m = Some c -> wf_cmd c.
+Theorem mem_cmd_wf : forall a hb s add_id m c, mem_cmd a hb s add_id m = Some c -> wf_cmd c.
 Proof.
-  intros a add_id m c H. unfold mem_cmd in H.
-  destruct (x86_add_mem _ add_id m) as [n | e | |] eqn:R; inversion H; subst; cbn; [exact I |].
+  intros a hb s add_id m c H. unfold mem_cmd in H.
+  destruct (x86_add_mem _ _ _ add_id m) as [n dr | e | |] eqn:R; inversion H; subst; cbn; [exact I |].
   unfold x86_add_mem in R.
   destruct (validate_add_mem _ add_id m =? 0) eqn:V.
   - unfold x86_add_mem_encode, bind_l in R.
@@ -80,19 +80,141 @@ Proof.
   - inversion R; subst. apply Z.eqb_neq. exact V.
 Qed.
 
-(* the instruction has no persistent side effect at all: an accepted form only appends bytes *)
-Theorem mem_cmd_bytes_only : forall a add_id m c, mem_cmd a add_id m = Some c ->
-  exists r, c = CInst r /\ match r with EncOk _ fx _ dr da ds => fx = None /\ dr = 0 /\ da = 0 /\ ds = 0 | EncErr _ => True end.
+(* an accepted form appends bytes and creates at most one relocation entry (the RIP-relative form of a base-less
+   64-bit address when the code has no base address yet); never a fixup, an address-table entry or a section *)
+Lemma mem_relocs_01 : forall x64 absloc cur add_id m n dr, x86_add_mem x64 absloc cur add_id m = MOk n dr -> 0 <= dr <= 1.
 Proof.
-  intros a add_id m c H. unfold mem_cmd in H.
-  destruct (x86_add_mem _ add_id m); inversion H; subst; eexists; split; try reflexivity; cbn; auto.
+  intros x64 absloc cur add_id m n dr H. unfold x86_add_mem in H.
+  destruct (validate_add_mem x64 add_id m =? 0); [| discriminate H].
+  unfold x86_add_mem_encode, bind_l in H.
+  repeat match type of H with
+  | (match ?o with Some _ => _ | None => _ end) = _ => destruct o; [| discriminate H]
+  | (if ?c then _ else _) = _ => destruct c
+  | (let _ := _ in _) = _ => cbv zeta in H
+  end; try discriminate H; inversion H; lia.
+Qed.
+
+Theorem mem_cmd_bytes_only : forall a hb s add_id m c, mem_cmd a hb s add_id m = Some c ->
+  exists r, c = CInst r /\ match r with EncOk _ fx _ dr da ds => fx = None /\ 0 <= dr <= 1 /\ da = 0 /\ ds = 0 | EncErr _ => True end.
+Proof.
+  intros a hb s add_id m c H. unfold mem_cmd in H.
+  destruct (x86_add_mem _ _ _ add_id m) eqn:R; inversion H; subst; eexists; (split; [reflexivity |]); cbn; auto.
+  split; [reflexivity |]. split; [eapply mem_relocs_01; eassumption | auto].
 Qed.
 
 Example mem_path_examples :
-  x86_add_mem_encode true  (mkMem 0 6 0 0 0 0 0 0 4 0) = MOk 2 /\        (* add eax, [rax]            *)
-  x86_add_mem_encode true  (mkMem 9 6 12 6 13 2 5 0 4 8) = MOk 6 /\      (* add r9d, fs:[r12+r13*4+8] *)
-  x86_add_mem_encode false (mkMem 1 4 3 4 6 0 0 0 4 0) = MOk 3 /\        (* add ecx, [bx+si]          *)
-  x86_add_mem_encode false (mkMem 1 4 0 0 0 0 0 0 4 0) = MErr kInvalidAddress /\   (* [ax]            *)
-  x86_add_mem_encode false (mkMem 1 5 9 0 0 0 0 0 4 0) = MErr kInvalidRexPrefix /\ (* [r9d] in 32-bit *)
-  x86_add_mem_encode true  (mkMem 1 6 0 6 4 0 0 0 4 0) = MErr kInvalidAddressIndex.
+  x86_add_mem_encode true false 0 (mkMem 0 6 0 0 0 0 0 0 4 0) = MOk 2 0 /\        (* add eax, [rax]            *)
+  x86_add_mem_encode true false 0 (mkMem 9 6 12 6 13 2 5 0 4 8) = MOk 6 0 /\      (* add r9d, fs:[r12+r13*4+8] *)
+  x86_add_mem_encode false false 0 (mkMem 1 4 3 4 6 0 0 0 4 0) = MOk 3 0 /\        (* add ecx, [bx+si]          *)
+  x86_add_mem_encode false false 0 (mkMem 1 4 0 0 0 0 0 0 4 0) = MErr kInvalidAddress /\   (* [ax]            *)
+  x86_add_mem_encode false false 0 (mkMem 1 5 9 0 0 0 0 0 4 0) = MErr kInvalidRexPrefix /\ (* [r9d] in 32-bit *)
+  x86_add_mem_encode true false 0 (mkMem 1 6 0 6 4 0 0 0 4 0) = MErr kInvalidAddressIndex /\
+  x86_add_mem_encode true false 16 (mkMem 0 0 0 0 0 0 0 0 4 4096) = MOk 6 1 /\          (* add eax, [0x1000]: RIP-relative + relocation *)
+  x86_add_mem_encode true true 16 (mkMem 0 0 0 0 0 0 0 0 4 4294967295) = MOk 8 0 /\     (* add eax, [0xFFFFFFFF]: 67h + SIB absolute *)
+  x86_add_mem_encode true true 16 (mkMem 0 0 0 0 0 0 0 0 4 1099511627776) = MErr kInvalidAddress64Bit.   (* 2^40 with a known base: neither RIP-relative nor 32-bit absolute reaches it *)
 Proof. vm_compute. repeat split; reflexivity. Qed.
+
+(* ---------------------------------------------------------------- VEX + VSIB path *)
+Lemma ll_size_lookup : forall sz, 0 <= sz <= x86c_size_max -> exists v, lookup x86_ll_by_size_div_16_table (sz / 16) = Some v.
+Proof.
+  intros sz H. apply lookup_in_len. replace (lenZ x86_ll_by_size_div_16_table) with 16 by (vm_compute; reflexivity).
+  unfold x86c_size_max in H. split; [apply Z.div_pos; lia | apply Z.div_lt_upper_bound; lia].
+Qed.
+
+(* with an index type the validator admits, the VEX/VSIB path reads mem_info_table, segment_prefix_table,
+   ll_by_reg_type_table and ll_by_size_div_16_table in range — for every base type, segment, size field, id, offset *)
+Theorem vsib_encode_never_stuck : forall x64 v,
+  0 <= m_btype (v_mem v) <= x86c_mem_base_type_max -> 0 <= m_itype (v_mem v) <= x86c_mem_index_type_max ->
+  0 <= m_seg (v_mem v) <= x86c_mem_segment_max -> 0 <= v_dsize v <= x86c_size_max ->
+  index_type_allowed (m_itype (v_mem v)) ->
+  x86_vgather_encode x64 v <> MStuck.
+Proof.
+  intros x64 v Hb Hi Hs Hz Ha. unfold x86_vgather_encode.
+  destruct (mem_info_lookup _ _ Hb Hi) as [rmi E1]. rewrite E1. cbn [bind_l].
+  destruct (segment_lookup _ Hs) as [sp E2]. rewrite E2. cbn [bind_l].
+  destruct (ll_lookup_validated _ Hi Ha) as [lv E3]. rewrite E3. cbn [bind_l].
+  destruct (ll_size_lookup _ Hz) as [ls E4]. rewrite E4. cbn [bind_l].
+  repeat match goal with
+  | |- (if ?c then _ else _) <> MStuck => destruct c
+  | |- MOk _ _ <> MStuck => discriminate
+  | |- MErr _ <> MStuck => discriminate
+  | |- MUnsupported <> MStuck => discriminate
+  end.
+Qed.
+
+(* ... and without that hypothesis the ll_by_reg_type_table read can leave the table: index type 16 (kMask) *)
+Theorem vsib_unvalidated_refuted : exists x64 v,
+  0 <= m_itype (v_mem v) <= x86c_mem_index_type_max /\ x86_vgather_encode x64 v = MStuck.
+Proof. exists true, (mkVsib 11 0 1 16 (mkMem 0 6 0 16 1 0 0 0 0 0)). split; [vm_compute; split; discriminate | reflexivity]. Qed.
+
+Theorem vsib_cmd_wf : forall a inst_id v c, vsib_cmd a inst_id v = Some c -> wf_cmd c.
+Proof.
+  intros a inst_id v c H. unfold vsib_cmd in H.
+  destruct (x86_vgather _ inst_id v) as [n dr | e | |] eqn:R; inversion H; subst; cbn; [exact I |].
+  unfold x86_vgather in R.
+  destruct (validate_vgather _ inst_id v =? 0) eqn:V.
+  - unfold x86_vgather_encode, bind_l in R.
+    repeat match type of R with
+    | (match ?o with Some _ => _ | None => _ end) = _ => destruct o; [| discriminate R]
+    | (if ?c then _ else _) = _ => destruct c
+    | (let _ := _ in _) = _ => cbv zeta in R
+    end; try discriminate R; inversion R; subst; vm_compute; discriminate.
+  - inversion R; subst. apply Z.eqb_neq. exact V.
+Qed.
+
+(* ---------------------------------------------------------------- the validator hypothesis is discharged through C13's model:
+   validate = kOk  ==>  the index type of the memory operand is admitted  ==>  the ll_by_reg_type_table read is in range *)
+From Verif Require Import X86Validate.ValidateModel X86Validate.ValidateProofs.
+From VerifGen Require Import X86Sigs.
+
+Lemma xlat_mem_index : forall T x64 avx size bt bid it iid off seg bcst home x c,
+  xlat_operand T x64 false avx (OMem size bt bid it iid off seg bcst home) = XOk x c ->
+  it = 0%N \/ N.testbit (vd_index_regs (if x64 then vt_vd64 T else vt_vd86 T)) it = true.
+Proof.
+  intros T x64 avx size bt bid it iid off seg bcst home x c H.
+  destruct (N.eqb it 0) eqn:E0; [left; apply N.eqb_eq; exact E0 |].
+  destruct (N.testbit (vd_index_regs (if x64 then vt_vd64 T else vt_vd86 T)) it) eqn:ET; [right; reflexivity |].
+  exfalso. cbn [xlat_operand] in H. rewrite E0, ET in H. cbn [negb] in H.
+  repeat match type of H with
+  | (if ?c then _ else _) = _ => destruct c
+  | (match (if ?c then _ else _) with _ => _ end) = _ => destruct c
+  | (match ?r with XErr _ => _ | XOk _ _ => _ end) = _ => destruct r
+  end; try discriminate H.
+Qed.
+
+Lemma validated_index_allowed : forall x64 inst_id v,
+  0 <= m_itype (v_mem v) -> validate_vgather x64 inst_id v = 0 -> index_type_allowed (m_itype (v_mem v)).
+Proof.
+  intros x64 inst_id v Hi H. unfold validate_vgather in H.
+  assert (V : validate x86_vtables false x64 false
+            {| vi_id := Z.to_N inst_id; vi_options := 0%N; vi_extra_type := 0%N; vi_extra_id := 0%N |}
+            [OReg (Z.to_N (v_type v)) (Z.to_N (v_dst v));
+             OMem (Z.to_N (m_size (v_mem v))) (Z.to_N (m_btype (v_mem v))) (Z.to_N (m_bid (v_mem v))) (Z.to_N (m_itype (v_mem v)))
+                  (Z.to_N (m_iid (v_mem v))) (if m_btype (v_mem v) =? 0 then sext 64 (m_off (v_mem v)) else sext 32 (m_off (v_mem v)))
+                  (Z.to_N (m_seg (v_mem v))) 0%N false;
+             OReg (Z.to_N (v_type v)) (Z.to_N (v_mask v))] = E_Ok).
+  { apply N2Z.inj. exact H. }
+  apply validate_ok_inv in V. destruct V as [_ [iflags [avx [sidx [scnt [st [rest [_ [XL _]]]]]]]]].
+  cbn [xlat_all] in XL.
+  destruct (xlat_operand x86_vtables x64 false avx (OReg _ _)) as [e0 | x0 c0]; [discriminate XL |].
+  destruct (xlat_operand x86_vtables x64 false avx (OMem _ _ _ _ _ _ _ _ _)) as [e1 | x1 c1] eqn:XM; [discriminate XL |].
+  apply xlat_mem_index in XM. unfold index_type_allowed.
+  destruct XM as [Z0 | TB].
+  - left. apply (f_equal Z.of_N) in Z0. rewrite Z2N.id in Z0 by exact Hi. exact Z0.
+  - right. rewrite <- (Z2N.id (m_itype (v_mem v))) by exact Hi.
+    destruct x64; [right | left]; cbn [vt_vd64 vt_vd86 x86_vtables] in TB;
+      [change x86c_allowed_mem_index_regs_x64 with (Z.of_N (vd_index_regs x86_vd1)) | change x86c_allowed_mem_index_regs_x86 with (Z.of_N (vd_index_regs x86_vd0))];
+      rewrite Z.testbit_of_N; exact TB.
+Qed.
+
+(* the VEX + VSIB path of a VALIDATED instruction never reads a table out of bounds — no hypothesis about the index type *)
+Theorem vsib_path_never_stuck : forall x64 inst_id v,
+  0 <= m_btype (v_mem v) <= x86c_mem_base_type_max -> 0 <= m_itype (v_mem v) <= x86c_mem_index_type_max ->
+  0 <= m_seg (v_mem v) <= x86c_mem_segment_max -> 0 <= v_dsize v <= x86c_size_max ->
+  x86_vgather x64 inst_id v <> MStuck.
+Proof.
+  intros x64 inst_id v Hb Hi Hs Hz. unfold x86_vgather.
+  destruct (validate_vgather x64 inst_id v =? 0) eqn:V; [| discriminate].
+  apply vsib_encode_never_stuck; try assumption.
+  apply Z.eqb_eq in V. eapply validated_index_allowed; [lia | exact V].
+Qed.
